@@ -156,6 +156,23 @@ def cases_1d():
         else:
             m["eqs"].append(("eq", var("y"), idx("x", 1, 1)))
         yield ({"ctx": "scalar-subscript", "form": form, "kind": "scalar"}, m, "reject", "subscript-on-scalar:" + form)
+    # a scalar subscripted by a loop variable
+    for mm in (1, 2):
+        for side in ("lhs", "rhs"):
+            m = {"name": "M", "vars": base_vars(2) + [vdecl("w", [mm])], "eqs": [], "ieqs": [], "funcs": []}
+            body = ("eq", idx("s", var("i")), num(1)) if side == "lhs" else ("eq", idx("w", var("i")), idx("s", var("i")))
+            m["eqs"].append(("for", "i", num(1), None, num(mm), [body]))
+            yield ({"ctx": "scalar-subscript-in-loop", "m": mm, "side": side, "kind": "scalar"}, m, "reject",
+                   "subscript-on-scalar:loop-variable")
+    # arrays of size 0: every subscript is out of range; an empty loop over them is fine
+    for mm in (0, 1, 2):
+        m = {"name": "M", "vars": base_vars(2) + [vdecl("z", [0])], "eqs": [("eq", var("y"), num(1))], "ieqs": [], "funcs": []}
+        m["eqs"].append(("for", "i", num(1), None, num(mm), [("eq", idx("z", var("i")), num(1))]))
+        yield ({"ctx": "empty-array-in-loop", "m": mm, "kind": "loop"}, m, "ok" if mm == 0 else "reject",
+               "empty-array:" + ("empty-loop" if mm == 0 else "loop-variable-subscript"))
+    for k in (0, 1):
+        m = {"name": "M", "vars": base_vars(2) + [vdecl("z", [0])], "eqs": [("eq", var("y"), idx("z", k))], "ieqs": [], "funcs": []}
+        yield ({"ctx": "empty-array-constant-subscript", "k": k, "kind": "scalar"}, m, "reject", "empty-array:constant-subscript")
 
 
 def cases_2d():
